@@ -3,4 +3,4 @@
 set -e
 rm -rf /scratch/seedrun && mkdir -p /scratch/seedrun && rsync -a --exclude target --exclude .git --exclude trees /repo/ /scratch/seedrun/
 P=$(realpath "$1"); (cd /scratch/seedrun && patch -p1 -s < "$P")
-cd /verif && bin/check "$2" --repo /scratch/seedrun --no-evidence 2>&1 | cut -c1-260
+cd /verif && VX_BUILD_DIR=/scratch/b2 bin/check "$2" --repo /scratch/seedrun --no-evidence 2>&1 | cut -c1-260
